@@ -124,6 +124,38 @@ Proof.
 Qed.
 Print Assumptions C06_refuses_partial.
 
+(* the same behind a pointer: destinations *T for T in bool, the 11 integer kinds, string, []byte,
+   time.Time, uuid.UUID ([proved_ptr]); a null token gives a nil pointer, anything else a pointer to
+   the value a T destination would receive - or the same error *)
+Theorem C06_accepts_behind_pointer_partial :
+  forall orc opts te f t w d v,
+    oracle_total orc -> law_f2i orc -> law_uuid orc ->
+    proved_ptr t = true -> scalar_tok w = true -> wf_tok w = true ->
+    denote_top w = Some d ->
+    representable orc opts te (S (S f)) (TPtr t) d = RSome v ->
+    exists v', dec_top orc opts te (S (S f)) (TPtr t) w = OOk v' /\ xeqv spec_fuel v' v = true.
+Proof.
+  intros orc opts te f t w d v Ho L1 L2 Ht Hs Hw Hd Hr.
+  rewrite (denote_top_scalar w Hs) in Hd. inversion Hd; subst d.
+  exact (accepts_ptr_scalar orc opts te f t w v Ho L1 L2 Ht Hs Hw Hr).
+Qed.
+Print Assumptions C06_accepts_behind_pointer_partial.
+
+Theorem C06_refuses_behind_pointer_partial :
+  forall orc opts te f t w d,
+    oracle_total orc ->
+    proved_ptr t = true -> scalar_tok w = true -> wf_tok w = true ->
+    denote_top w = Some d ->
+    representable orc opts te (S (S f)) (TPtr t) d = RNone ->
+    fits orc t w = true ->
+    exists e, dec_top orc opts te (S (S f)) (TPtr t) w = OErr e.
+Proof.
+  intros orc opts te f t w d Ho Ht Hs Hw Hd Hr Hf.
+  rewrite (denote_top_scalar w Hs) in Hd. inversion Hd; subst d.
+  exact (refuses_ptr_scalar_partial orc opts te f t w Ho Ht Hs Hw Hr Hf).
+Qed.
+Print Assumptions C06_refuses_behind_pointer_partial.
+
 (* what happens outside [fits]: the integer is stored modulo 2^n, for every kind and every value *)
 Theorem C06_narrowing_is_wraparound :
   forall orc opts te f k z,
